@@ -145,7 +145,7 @@ def hostile_html(R):
 
 def hostile_options(R):
     keys = ["class", "name", "width", "nosuch", "", " ", "a b", "1", "-", "?", "&a", "*a", "!!str", "<<", "{", "[", "|", ">", "'", '"', "\\", "\x00", "\u2028", "k" * 300]
-    vals = ["x", "", " ", "|", ">", "|2-", ">+9", "'unterminated", '"unterminated', '"\\x4"', '"\\uD800"', '"\\U00110000"', '"\\UFFFFFFFF"', "&anchor v", "*alias", "!!python/object:os.system x", "[a, b", "{a: b", "a: b: c", "# c", "- x",
+    vals = ["x", "", " ", "|", ">", "|2-", ">+9", "'unterminated", '"unterminated', '"\\x4"', '"\\x-1"', '"\\u-041"', '"\\U-0000041"', '"\\x+1"', '"\\x_1"', '"\\u 041"', '"\\uD800"', '"\\U00110000"', '"\\UFFFFFFFF"', "&anchor v", "*alias", "!!python/object:os.system x", "[a, b", "{a: b", "a: b: c", "# c", "- x",
             "\t", "\x00", "\u2028x", "\x85", "v" * 2000, "1e999", "~", "null", "2020-01-01", "0x1F", "0o17", "<<", "@x", "`y", "%z"]
     name = R.choice(["note", "image", "figure", "code-block", "admonition", "include", "csv-table", "table", "math", "raw", "container", "nosuch", "contents", "list-table", "meta", "role", "class", "epigraph", "parsed-literal"])
     arg = R.choice(["", "x", "a.png", "T i t l e", "html", "1 2 3", "\x00", "a" * 500])
